@@ -815,6 +815,30 @@ fn case_plumb(kv: &Kv) -> String {
             });
             rel(seen, t0, t1)
         }
+        // both setters on one builder: the one called LAST decides
+        "deadline_then_timeout" => {
+            let mut c = TextDiff::configure();
+            c.algorithm(alg);
+            c.deadline(Instant::now() + Duration::from_secs(1900));
+            c.timeout(d);
+            std::thread::sleep(gap);
+            let (seen, t0, t1) = window(&mut || {
+                let _ = c.diff_chars(&o[..], &n[..]);
+            });
+            rel(seen, t0, t1)
+        }
+        "timeout_then_deadline" => {
+            let want = Instant::now() + Duration::from_secs(2000);
+            let mut c = TextDiff::configure();
+            c.algorithm(alg);
+            c.timeout(d);
+            c.deadline(want);
+            std::thread::sleep(gap);
+            let (seen, _, _) = window(&mut || {
+                let _ = c.diff_chars(&o[..], &n[..]);
+            });
+            abs(seen, want)
+        }
         "deadline" => {
             let want = Instant::now() + Duration::from_secs(1800);
             let mut c = TextDiff::configure();
